@@ -32,7 +32,7 @@ STUBS = ["none (reference evaluator is the oracle)"]
 BIN = ["*", "/", "%", "+", "-", "<<", ">>", "&", "^", "|"]
 PREC = {"|": 0, "^": 1, "&": 2, "<<": 3, ">>": 3, "+": 4, "-": 4, "*": 5, "/": 5, "%": 5}
 IDENTS = ["a", "b", "n", "x1", "_k", "len", "N", "u8", "ul", "Ab_9", "l", "U", "u"]
-SIZEOF_TYPES = {"uint16": 2, "T3": 3, "uint64": 8}
+SIZEOF_TYPES = {"uint16": 2, "T3": 3, "uint64": 8, "DWORD": 4, "BYTE": 1, "QWORD": 8, "T3alias": 3, "W2": 2, "int24": 3}
 BIG = 1 << 512
 
 
@@ -254,6 +254,8 @@ def run_case(case, stats):
 
     cs = cstruct()
     cs.load("struct T3 { uint8 a; uint16 b; };")
+    cs.add_type("T3alias", "T3")   # aliases stored as names in the type table (string -> string -> type)
+    cs.add_type("W2", "WORD")
     consts = dict(case["consts"])
     for n, v in consts.items():
         cs.consts[n] = v
